@@ -303,7 +303,7 @@ func (f *Frame) contractCall(st *State, spec *FuncSpec, callee *ssa.Function, ar
 				// function's parameters cannot be operands: every such object the
 				// callee can reach was allocated by this activation
 				goal := f.assignsAllow(t.Root+"|"+t.Path, IntT(-9))
-				if !f.paramKinds()[t.Root] {
+				if pk := f.paramKinds(); !pk[t.Root] && !pk["*"] {
 					goal = True2()
 				}
 				f.oblige(st, "FRAME", "call "+cname+" assigns "+t.Text, pos, goal)
